@@ -166,6 +166,7 @@ ADDENDA = {
     "C04": "Extended: hostile path-parameter values on parameterised routes in every tier, deferred calibration judgement. Round 5: presentation sequences (short-lived tokens presented repeatedly while valid, failing credentials derived from a just-accepted one, six presentations after expiry on a monotonic stopwatch) and 12 listener configurations (http.internal.address empty/blank/unset/:0/no port via env, file, flag) booted through cmd.Execute with the public listener probed.",
     "C05": "Extended: store-fault enumeration below the session database (every backend operation of a presentation lost or answered with an error, single and outage-spanning, also steered two-actor), volume phase (1 000 ... 262 144 live entries between use and replay).",
     "C06": "Extended: every third valid offer is first made to fail in the store (commit refused, caller gone, n-th Put failing) and the full snapshot incl. reported clock compared. Round 5: young-DAG matrix - format version {1,2} x key family {P-256,P-384,P-521,RSA} x private/resolver; every variant class (158, incl. mandatory headers removed with/without their crit entry and further retypes) offered to the root of an empty DAG and to the first child.",
+    "C07": "Round 5: scenario class deep-fork (two or three nodes each owning a large branch above a common prefix, tops at page boundaries 512/1024/1536 one or two pages apart, the peer's transactions on the requester's pages just under/over the IBLT capacity; walk-down and climb requests counted and calibrated), stagnation stop.",
     "C08": "Extended: repair on 513/1025-transaction chains.",
     "C09": "Extended: id text-extension rules, percent-escaped thumbprint, byte-for-byte republication by an outsider, publicKeyJwk declaring its own kid, RSA and Ed25519 verification methods. Round 5: 19 uniqueness rules with realistic mixed-case service types/ids in seven arrangements; update-style transactions for DIDs no version of which is known (4 target kinds x 9 payload shapes x prev choices) followed by the rightful creation.",
     "C11": "Extended: signed revocations (genuine + 7 forgeries, hosted did:web), re-issue racing revocations, stored lists aged (document and expiry column) to 20 min left / 1 h / 5 h past expiry. Round 5/6: every revoked-must-fail verdict also at 8 explicit validation times around issuance and revocation through 5 routes (signed network revocations and status-list revocations); SQL fault enumeration below the status-list store (gorm callbacks on the node's DB + SQLite ABORT triggers over every statement of revoke/issue/roll-over/serve; what the node reported must show afterwards); multi-entry credentialStatus arrays (revoked entry at every position of 2-4 entries x 14 neighbour kinds).",
